@@ -391,6 +391,27 @@ def c12e(ctx, enc, dec, tag):
         ctx.fail(o, "(program)", "field correspondence could be established for only %d types (%s)" % (n, tag))
 
 
+def c12j(ctx, prog):
+    """BitVec is written as `bit length, then whole storage elements`; the decoder has to cut the rebuilt vector back to the
+    bit length, else up to bits_of::<T>() - 1 padding bits become part of the value."""
+    o = ctx.ob("C12.j", "BitVec/decoded-vector-cut-to-the-bit-length", "K1+K5", "Decode for BitVec truncates the rebuilt vector to the length it read, before returning it")
+    ds = [b for b in prog.all_bodies(["qbice_serialize"]) if b.rec.get("trait") == wire.DEC_TRAIT and (b.rec.get("self_ty") or "").startswith("bitvec::vec::BitVec")]
+    o.sites = len(ds)
+    if len(ds) != 1:
+        ctx.fail(o, "(program)", "anchor missing: Decode for BitVec (found %d)" % len(ds))
+        return
+    b = ctx.touch(ds[0])
+    tr = b.calls_to(r"BitVec<T, O>>::truncate$|BitVec::<T, O>::truncate$")
+    rd = b.calls_to(r"Decoder::read_usize$")
+    if len(tr) != 1 or len(rd) != 1 or not any(x.kind == "call" and x.site == rd[0] for x in df.origins_of_operand(b, tr[0].node["args"][1])):
+        ctx.fail(o, Site(b, 0, 0), "Decode for BitVec does not truncate the rebuilt vector to the bit length it read: the padding bits of the last storage element become part of the value")
+    else:
+        oks = b.aggregates(r"core::result::Result$", "Ok")
+        for k in oks:
+            if not b.site_dominates(tr[0], k):
+                ctx.fail(o, k, "Decode for BitVec can return the vector before cutting it to the bit length")
+
+
 def c12i(ctx, prog):
     """A ring buffer's storage is two slices whose split point depends on the deque's history.  An encoder (or decoder)
     that looks at the storage through as_slices() must consume BOTH halves; writing `as_slices().0` alone is a valid,
@@ -429,6 +450,7 @@ def run(ctx):
         ctx.run_clause("C12.e", lambda c: c12e(c, enc_dec["x"][0], enc_dec["x"][1], "main"))
     ctx.run_clause("C12.c", lambda c: c12c(c, prog))
     ctx.run_clause("C12.i", lambda c: c12i(c, prog))
+    ctx.run_clause("C12.j", lambda c: c12j(c, prog))
     # the derive macros: their fixtures live in the serializer's unit-test module (unit/tuple/named structs, enums with
     # unit/tuple/struct variants, generics, #[serialize(skip)]); analysed, never run
     def fixtures(c):
